@@ -62,6 +62,12 @@ func init() {
 			return nil
 		},
 		"vfScanNondeterminism": vfScanNondeterminism,
+		// vfSchedYield(on): every Mutex/RWMutex unlock and every time.Sleep becomes a preemption point
+		"vfSchedYield": func(fr *frame, args []value) value {
+			fr.i.ex.impure("vfSchedYield")
+			fr.i.ex.sched.YieldOnUnlock = args[0].(bool)
+			return nil
+		},
 		// vfProved(cond): try to prove cond under the current path condition. true: proved
 		// (and assumed); false: not proved (a model exists or the solver gave up) - nothing is
 		// reported, the harness is expected to continue with a stage whose models replay.
